@@ -17,6 +17,7 @@
 //!            -> mn <bits|panic> mx <bits|panic> sc <bits>
 //!   c09cs    <alpha> <L> <syms…>                                     count_symbol / count_symbols
 //!            -> <K counts> | <K counts>
+//!   c09laws  -                                                       2.0==2.0, log2/log10/ln of 0.0, -inf, empty sum, 0.01, 10.0
 use crate::out::*;
 use crate::rng::Rng;
 use crate::Cfg;
@@ -728,6 +729,25 @@ pub fn exec(line: &str) -> Verdict {
         "c09fnew" => go!(fnew_case),
         "c09score" => go!(score_case),
         "c09cs" => go!(cs_case),
+        "c09laws" => {
+            // the laws named by the structural theorems, on the machine's f32
+            let z = std::hint::black_box(0.0f32);
+            let two = std::hint::black_box(2u32) as f32;
+            let empty: Vec<f32> = Vec::new();
+            let ans = format!(
+                "{} {} {} {} {} {} {} {}",
+                two == 2.0,
+                fb(z.log2()),
+                fb(z.log10()),
+                fb(z.ln()),
+                fb(f32::NEG_INFINITY),
+                fb(empty.iter().sum::<f32>()),
+                fb(std::hint::black_box(0.01f32)),
+                fb(std::hint::black_box(10u32) as f32)
+            );
+            let ok = z.log2() == f32::NEG_INFINITY && z.log10() == f32::NEG_INFINITY && z.ln() == f32::NEG_INFINITY;
+            (ans, Some(if ok { Ok(()) } else { Err("log 0 is not -inf".into()) }), false)
+        }
         _ => panic!("unknown op {}", op),
     }
 }
@@ -909,6 +929,7 @@ pub fn generate(cfg: &Cfg) -> Vec<String> {
     let mut rng = Rng::new(cfg.seed ^ 0xC09);
     let mut cases = Vec::new();
     let mult = (if cfg.thorough { 30 } else { 1 }) * cfg.boost;
+    cases.push("c09laws -".to_string());
     for (alpha, k) in [("dna", 5usize), ("protein", 21usize)] {
         // ---------------- from_sequences: boundary (0, 1 sequences; empty sequences; the unequal one
         // first / last / in the middle; shorter and longer), then random
